@@ -52,9 +52,28 @@ func (C12) Generate(r *rand.Rand, tier string, idx int) *drv.Scenario {
 		}
 	}
 	steps := GenLabelHistory(r, 10+r.IntN(16), 0, 0.05, extra)
+	fam := "allocation"
+	if r.IntN(4) == 0 {
+		// stride family: cross the persist-ahead boundary (100 ids) inside one lifetime, with
+		// visible mutation ids before and after, then stop the server and allocate again
+		fam = "stride"
+		var out []drv.Op
+		out = append(out, steps[:3]...)
+		out = append(out, drv.Op{Op: "ingest", V: 0, N: seed()}, drv.Op{Op: "lmerge", V: 0, N: seed()},
+			drv.Op{Op: "burn", V: 0, N: int64(92 + r.IntN(12))}, drv.Op{Op: "cleave", V: 0, N: seed()}, drv.Op{Op: "lmerge", V: 0, N: seed()},
+			drv.Op{Op: "burn", V: 0, N: int64(r.IntN(8))}, drv.Op{Op: "cleave", V: 0, N: seed()})
+		if r.IntN(2) == 0 {
+			out = append(out, drv.Op{Op: "restart", Mode: pick(r, []string{"clean", "kill"})})
+		} else {
+			out = append(out, drv.Op{Op: "crashop", V: 0, M: int64(1 + r.IntN(6)), Mode: pick(r, []string{"before", "after"}), Sub: []drv.Op{{Op: "lmerge", V: 0, N: seed()}}})
+		}
+		out = append(out, drv.Op{Op: "lmerge", V: 0, N: seed()}, drv.Op{Op: "cleave", V: 0, N: seed()}, drv.Op{Op: "splitsv", V: 0, N: seed()})
+		out = append(out, steps[3:]...)
+		steps = out
+	}
 	k := baseKnobs(r)
 	k.MutIDStart = 1000*uint64(1+r.IntN(50)) + 100*uint64(r.IntN(10)) - uint64(r.IntN(3)) // 0-2 below a stride boundary
-	return &drv.Scenario{Family: "allocation", Knobs: k, Steps: steps, Fixed: 2}
+	return &drv.Scenario{Family: fam, Knobs: k, Steps: steps, Fixed: 2}
 }
 
 type c12State struct {
@@ -109,6 +128,8 @@ func (c C12) Execute(sc *drv.Scenario, w *drv.World) (*drv.Violation, error) {
 			v, err = c.crashOp(x, s, op)
 		case "ingestkill":
 			v, err = c.ingestKill(x, s, op)
+		case "burn":
+			err = c.burn(x, op)
 		case "restart":
 			_, v, err = x.Apply(op)
 			s.afterStop = true
@@ -266,6 +287,45 @@ func (c C12) parAlloc(x *LabelExec, op drv.Op) (*drv.Violation, error) {
 		}
 	}
 	return nil, nil
+}
+
+// burn consumes mutation ids cheaply (idempotent mutating rewrites of one block) so that the
+// persist-ahead stride of 100 ids is crossed within one server lifetime.
+func (c C12) burn(x *LabelExec, op drv.Op) error {
+	if x.M == nil || !x.D.Has(op.V) || x.D.Nodes[op.V].Locked {
+		return nil
+	}
+	g := x.M.Geom
+	lv := x.M.Versions[op.V]
+	data := make([]uint64, g.B*g.B*g.B)
+	i := 0
+	for z := 0; z < g.B; z++ {
+		for y := 0; y < g.B; y++ {
+			for xx := 0; xx < g.B; xx++ {
+				data[i] = lv.Vox[g.idx(xx, y, z)]
+				i++
+			}
+		}
+	}
+	if !lv.Written[0] {
+		return nil
+	}
+	body := u64sToBytes(data)
+	url := x.boxURL(op.V, [3]int{0, 0, 0}, [3]int{1, 1, 1}) + "?mutate=true"
+	var reqs []proto.Req
+	for k := 0; k < int(op.N); k++ {
+		reqs = append(reqs, proto.Req{Client: "c0", Kind: "http", Method: "POST", URL: url, Body: body})
+	}
+	resps, err := x.W.SeqFast(reqs)
+	if err != nil {
+		return err
+	}
+	for _, r := range resps {
+		if r.Status == 200 {
+			x.W.Stats.Probe("mutation-ids-burnt")
+		}
+	}
+	return nil
 }
 
 // crashOp: process exit before/after the M-th write of an allocating operation, then restart.
